@@ -2335,7 +2335,8 @@ func tokenTypes() []simplexer.TokenType{
 		t(BACKQUOTE_STR, "`(\\\\`|[^`])*`"),
 		// NOTE: backslash escapes any following character
 		// (otherwise `"\\"` is not terminated because `\"` is regarded as an escaped quote)
-		t(HEAD_STR_PIECE, `"(\\.|[^\"\\\n\r#])*#\{`),
+		// NOTE: `#` is a delimiter only if `{` follows
+		t(HEAD_STR_PIECE, fmt.Sprintf(`"%s#+\{`, strPiece)),
 		t(DOUBLEQUOTE_STR, `"(\\.|[^\"\\\n\r])*"`),
 		// NOTE: lexer deals with multiline chain
 		// (if parser does, shift/reduce conflict occurs)
@@ -2409,6 +2410,10 @@ func tokenTypes() []simplexer.TokenType{
 	}
 }
 
+// strPiece is a pattern of the chars between delimiters of embeddedStr
+// (`#`s which are not followed by `{` are ordinary chars).
+const strPiece = `(\\.|[^\"\\\n\r#]|#+(\\.|[^\"\\\n\r#\{]))*`
+
 func embeddedStrTokenTypes() []simplexer.TokenType {
 	t := simplexer.NewRegexpTokenType
 
@@ -2416,8 +2421,8 @@ func embeddedStrTokenTypes() []simplexer.TokenType {
 	// (otherwise, func call like `{|x| x}("a")` is wrongly lexed to
 	// TAIL_STR_PIECE)
 	return []simplexer.TokenType{
-		t(MID_STR_PIECE, `\}(\\.|[^\"\\\n\r#])*#\{`),
-		t(TAIL_STR_PIECE, `\}(\\.|[^\"\\\n\r#])*"`),
+		t(MID_STR_PIECE, fmt.Sprintf(`\}%s#+\{`, strPiece)),
+		t(TAIL_STR_PIECE, fmt.Sprintf(`\}%s#*"`, strPiece)),
 	}
 }
 
